@@ -144,3 +144,19 @@ Definition event_law (P : src) (c : nat) : list lab :=
     (Some O, Some sp, s * p_duo P); (Some fresh1, Some sp, (1 - s) * p_duo P) ].
 Definition olist (o : option nat) : list nat := match o with Some t => [t] | None => [] end.
 Definition forget (e : lab) : list nat * Qc := (olist (fst (fst e)) ++ olist (snd (fst e)), snd e).
+
+(* ---- the event-table cache of Source.generate_samples / cache_prob_table: the table is kept together with the
+   (photon count, filter) it was built for, and is rebuilt unless BOTH agree with the request
+   ("_prob_table is None or n != _prob_table_n or min_detected_photons != _prob_table_filter") *)
+Record tcache := mk_tcache { tc_n : nat; tc_f : nat; tc_val : dist (nat * nat * nat) * Qc * Qc }.
+Definition cache_request (P : src) (c : option tcache) (n f : nat) : tcache :=
+  match c with
+  | Some k => if ((tc_n k =? n) && (tc_f k =? f))%nat then k else mk_tcache n f (prob_table P n f)
+  | None => mk_tcache n f (prob_table P n f)
+  end.
+(* a history of filtered sampling calls (n, f) on one Source *)
+Fixpoint cache_run (P : src) (c : option tcache) (h : list (nat * nat)) : option tcache :=
+  match h with
+  | [] => c
+  | (n, f) :: rest => cache_run P (Some (cache_request P c n f)) rest
+  end.
